@@ -86,7 +86,7 @@ func c10History(k int, flushes bool, limit int) {
 		}
 		a.AssembleWithTimestamp(c10Net, tcp, ts)
 		if flushes && verifChoose(2) == 1 {
-			a.FlushOlderThan(ts.Add(time.Second))
+			a.FlushWithOptions(FlushOptions{T: ts.Add(time.Second), CloseAll: false})
 			flushed = true
 		}
 	}
@@ -106,11 +106,6 @@ func c10History(k int, flushes bool, limit int) {
 		if c.skip != 0 {
 			verifAssert(flushed || limit > 0, "gaps are skipped only on flush or buffer limit")
 			verifAssert(c.skip > 0, "skip is a positive byte count")
-			for j := 0; j < c10W+3; j++ {
-				if j >= pos && j < pos+c.skip {
-					verifAssert(!arrived[j] || true, "skipped range")
-				}
-			}
 			pos += c.skip
 		}
 		verifAssert(pos+len(c.b) <= c10W+3, "delivered bytes lie inside the stream")
@@ -122,9 +117,7 @@ func c10History(k int, flushes bool, limit int) {
 	// everything that arrived contiguously from the start has been delivered
 	contig := 0
 	for j := 0; j < c10W+3; j++ {
-		if contig == j && arrived[j] {
-			contig = j + 1
-		}
+		contig = verifIte(verifAnd(contig == j, arrived[j]), j+1, contig)
 	}
 	verifAssert(pos >= contig, "every contiguously arrived byte was delivered")
 	verifReached("history")
